@@ -143,7 +143,7 @@ def run(ctx):
                '[dest.den := documented value]; operators summarised by their contracts (contracts/wire.py); '
                'ripple adders by induction on the operand length')
     combfam.run_comb_family(ctx, 'C13.arith', cases(ctx.tier), FUNCS,
-                            'adder/multiplier result is not the exact sum/product')
+                            'adder/multiplier result is not the exact sum/product', opts=dict(const_twins=4))
     # sequential multipliers
     tasks = []
     wm = 4 if ctx.tier == 'quick' else 6
